@@ -114,3 +114,41 @@ def strip_cast(n: Node) -> Node:
             n = n.args[0]
         else:
             return n
+
+
+def decision_list(I, pr, n: Node):
+    """Array value n as an ordered decision list [(formula, value node | None)], first match wins.
+
+    Understands masked stores over a prefilled array (zeros_like / full_like / empty_like, later stores override
+    earlier ones) and numpy.where; a value of None means 'left undefined' (empty_like)."""
+    base, chain = scatter_chain(n)
+    out = [(pr.formula(sc.args[1]), sc.args[2]) for sc in reversed(chain)]
+    T = ("const", True)
+    if is_ext_call(base, "numpy.where") and len(base.args) == 4:
+        out.append((pr.formula(base.args[1]), base.args[2]))
+        out.append((T, base.args[3]))
+    elif is_ext_call(base, "numpy.full_like", "numpy.full") and len(base.args) >= 3:
+        out.append((T, base.args[2]))
+    elif is_ext_call(base, "numpy.zeros_like", "numpy.zeros"):
+        out.append((T, I.const(0)))
+    elif is_ext_call(base, "numpy.ones_like", "numpy.ones"):
+        out.append((T, I.const(1)))
+    elif is_ext_call(base, "numpy.empty_like", "numpy.empty"):
+        out.append((T, None))
+    else:
+        out.append((T, base))
+    return out
+
+
+def disjoint_pieces(pr, dl):
+    """[(region formula, value)] with region_i = f_i and not any earlier f_j; regions that are unsatisfiable are
+    dropped"""
+    out = []
+    earlier = ("const", False)
+    for f, v in dl:
+        reg = ("and", f, ("not", earlier))
+        sat = pr.forall(("not", reg))
+        if not (sat and sat[0]):
+            out.append((reg, v))
+        earlier = ("or", earlier, f)
+    return out
